@@ -901,6 +901,11 @@ class ProgramRunner:
     def run(self, prog):
         """prog: list of op dicts (op + arguments); returns trace records (the first describes the session)"""
         recs = [{"op": "init", "size": self.size}]
+        bad = self._ensure("r")        # the read file is opened up front: no hidden request later in the program
+        if bad is not None:
+            recs.append({"op": "open", "out": bad[0], "short": False,
+                         "exc": type(bad[1]).__name__ if bad[0] == "exc" else bad[1]})
+            return recs
         for op in prog:
             if self.wedged:
                 break
@@ -943,7 +948,14 @@ class ProgramRunner:
                 blob = self.rnd.randbytes(op["n"])
 
                 def body():
-                    for _ in range(op["count"]):
+                    for i in range(op["count"]):
+                        if i % 50 == 49:
+                            # an application that is not faster than its server: give the server the chance to
+                            # answer (otherwise whether paramiko's "more than 100 outstanding" drain runs at all
+                            # depends on thread scheduling)
+                            end = time.time() + 1.0
+                            while not self.sess.c.recv_ready() and time.time() < end:
+                                time.sleep(0.001)
                         f.write(blob)
                 outcome = self.call(("write", op["count"] > 100), body)
             elif k == "sync":
